@@ -48,6 +48,14 @@ func RemoveCommasFilter(x Sexp) bool {
 }
 
 func (env *Zlisp) FilterAny(x Sexp, f Filter) (filtered Sexp, keep bool) {
+	if env != nil {
+		env.filterDepth++
+		defer func() { env.filterDepth-- }()
+		if env.filterDepth > maxDataDepth {
+			// self-referential data: leave the rest as it is
+			return x, true
+		}
+	}
 	switch ele := x.(type) {
 	case *SexpArray:
 		res := &SexpArray{Val: env.FilterArray(ele.Val, f), Typ: ele.Typ, IsFuncDeclTypeArray: ele.IsFuncDeclTypeArray, Env: env}
